@@ -401,6 +401,40 @@ def lex_ignore():
     return prs.Lexer.t_ignore
 
 
+def extract_dddmp():
+    """Introspect dd.dddmp (imported from the working tree): the reserved words of the header
+    lexer, its token rules in the order of PLY's master regular expression, `t_ignore`, and the
+    productions of the header grammar."""
+    sys.path.insert(0, REPO)
+    import importlib
+    dm = importlib.import_module('dd.dddmp')
+    lx = dm.Lexer()
+    reserved = sorted(lx.reserved.items())
+    rules = []
+    for _rx, findex in lx.lexer.lexstatere['INITIAL']:
+        for item in findex:
+            if item is None:
+                continue
+            _f, name = item
+            if name is None:
+                name = getattr(_f, '__name__', 't_?')[2:]
+            elif _f is not None:
+                name = getattr(_f, '__name__', 't_' + name)[2:]
+            rules.append(name)
+    regex = {}
+    for name in dir(dm.Lexer):
+        if name.startswith('t_') and name not in ('t_error', 't_ignore'):
+            obj = getattr(dm.Lexer, name)
+            rx = (obj.__doc__ or '') if callable(obj) else obj
+            regex[name[2:]] = ''.join(rx.split())
+    prods = []
+    for name in sorted(dir(dm.Parser)):
+        if name.startswith('p_') and name != 'p_error':
+            doc = getattr(dm.Parser, name).__doc__ or ''
+            prods.append((name, re.sub(r'\s+', ' ', doc).strip()))
+    return reserved, rules, regex, dm.Lexer.t_ignore, prods
+
+
 def generate():
     write_ctables()
     bdd_py = os.path.join(REPO, 'dd', 'bdd.py')
@@ -456,12 +490,36 @@ def generate():
         f'(.{a}, {lean_str(t)})' for a, t in prec))
     L.append('def productions : List (String × String) := ' + lean_list(
         f'({lean_str(n)}, {lean_str(d)})' for n, d in prods))
+    # the same productions, one entry per alternative: (function, left-hand side, right-hand side
+    # symbols); `%prec X` annotations dropped (they only resolve conflicts)
+    gram = []
+    for n, d in prods:
+        lhs, _, rhs = d.partition(':')
+        for alt in rhs.split('|'):
+            syms = alt.split()
+            if '%prec' in syms:
+                syms = syms[:syms.index('%prec')]
+            gram.append(f'({lean_str(n)}, {lean_str(lhs.strip())}, ' + lean_list(map(lean_str, syms)) + ')')
+    L.append('def grammar : List (String × String × List String) := ' + lean_list(gram))
     # lexer facts of the Python runtime / PLY that the tokenizer model relies on
     L.append('/-- code points of the zero digits of the Unicode decimal-digit runs matched by `\\d` (str patterns) -/')
     L.append('def decimalZeros : List Nat := ' + lean_list(str(z) for z in decimal_zeros()))
     L.append('/-- token rules in the order of the PLY master regular expression -/')
     L.append('def lexRuleOrder : List String := ' + lean_list(lean_str(n) for n in lex_rule_order()))
     L.append('def lexIgnore : String := ' + lean_str(lex_ignore()))
+    # DDDMP header lexer / grammar (dd/dddmp.py)
+    dres, drules, dregex, dignore, dprods = extract_dddmp()
+    L.append('/-- reserved words of the DDDMP header lexer: text ↦ token type -/')
+    L.append('def dddmpReserved : List (String × String) := ' + lean_list(
+        f'({lean_str(k)}, {lean_str(v)})' for k, v in dres))
+    L.append('/-- its token rules in the order of the PLY master regular expression -/')
+    L.append('def dddmpLexRuleOrder : List String := ' + lean_list(lean_str(n) for n in drules))
+    L.append('/-- ... and their whitespace-stripped verbose regexes -/')
+    L.append('def dddmpTokenRules : List (String × String) := ' + lean_list(
+        f'({lean_str(k)}, {lean_str(v)})' for k, v in sorted(dregex.items())))
+    L.append('def dddmpLexIgnore : String := ' + lean_str(dignore))
+    L.append('def dddmpProductions : List (String × String) := ' + lean_list(
+        f'({lean_str(n)}, {lean_str(d)})' for n, d in dprods))
     L.append('end Gen')
     text = '\n'.join(L) + '\n'
     os.makedirs(os.path.dirname(OUT), exist_ok=True)
